@@ -22,7 +22,6 @@ import (
 	core "github.com/iden3/go-iden3-core/v2"
 	"github.com/iden3/go-iden3-core/v2/w3c"
 	"github.com/iden3/go-schema-processor/v2/merklize"
-	"github.com/iden3/go-schema-processor/v2/utils"
 	"github.com/iden3/go-schema-processor/v2/verifiable"
 	"github.com/piprate/json-gold/ld"
 
@@ -149,10 +148,14 @@ func (s *Schema) BuildDoc() []byte {
 // Env owns the offline loader.
 type Env struct {
 	Loader *ctxload.Loader
+	Space  string // path segment of generated schema URLs (distinct environments use distinct URL spaces)
 	n      int
 }
 
-func NewEnv() *Env { return &Env{Loader: ctxload.New()} }
+func NewEnv() *Env { return &Env{Loader: ctxload.New(), Space: "gen"} }
+
+// NewEnvIn: an environment whose schema URLs live under another path segment.
+func NewEnvIn(space string) *Env { return &Env{Loader: ctxload.New(), Space: space} }
 
 // MerklizeOpts are the options every call must carry to stay offline.
 func (e *Env) MerklizeOpts() []merklize.MerklizeOption {
@@ -168,7 +171,7 @@ func (e *Env) Register(s *Schema) error {
 func (e *Env) NewSchema(ser *string) *Schema {
 	e.n++
 	s := &Schema{
-		URL:      fmt.Sprintf("https://schemas.example/gen/%d.json-ld", e.n),
+		URL:      fmt.Sprintf("https://schemas.example/%s/%d.json-ld", e.Space, e.n),
 		TypeName: fmt.Sprintf("GenType%d", e.n),
 		TypeIRI:  fmt.Sprintf("urn:uuid:00000000-0000-4000-8000-%012d", e.n),
 		Ser:      ser,
@@ -220,6 +223,10 @@ type Spec struct {
 	TopTypes      []string  `json:"top_types,omitempty"`  // override of the top-level "type" array
 	Values        [5]string `json:"values"`               // price, count, name, insured, since ("" = default)
 	ExtraCtx      []string  `json:"extra_ctx,omitempty"`  // more context URLs
+	Undefined     bool      `json:"undefined,omitempty"`  // credentialSubject carries a property no context defines (merklizes only with safe mode off)
+	// AltSchema: the document a SECOND document loader serves at Schema.URL (same URL, type
+	// name and type IRI, other attribute).  nil = the second loader serves the same document.
+	AltSchema *Schema `json:"alt_schema,omitempty"`
 }
 
 type Cred struct {
@@ -259,6 +266,9 @@ func Build(sp Spec) (*Cred, error) {
 	}
 	if !omit["name"] {
 		cs["name"] = val(sp.Values[2], "Alice")
+	}
+	if sp.Undefined {
+		cs["undefinedProperty"] = "x"
 	}
 	info := map[string]any{}
 	if !omit["info.insured"] {
@@ -422,6 +432,11 @@ type View struct {
 
 // ViewOf computes the view with separate public-API calls (never ToCoreClaim).
 func (e *Env) ViewOf(vc *verifiable.W3CCredential, paths []string) View {
+	return e.ViewOfWith(vc, paths, e.MerklizeOpts())
+}
+
+// ViewOfWith: the view under the given merklizer options (document loader, hasher, safe mode).
+func (e *Env) ViewOfWith(vc *verifiable.W3CCredential, paths []string, mzOpts []merklize.MerklizeOption) View {
 	v := View{Fields: map[string]*big.Int{}}
 	if id := vc.CredentialSubject["id"]; id != nil {
 		s := fmt.Sprintf("%v", id)
@@ -431,7 +446,7 @@ func (e *Env) ViewOf(vc *verifiable.W3CCredential, paths []string) View {
 		u := vc.Expiration.Unix()
 		v.Exp = &u
 	}
-	mz, err := vc.Merklize(context.Background(), e.MerklizeOpts()...)
+	mz, err := vc.Merklize(context.Background(), mzOpts...)
 	if err != nil {
 		return v
 	}
@@ -523,9 +538,9 @@ func (v View) Coq(f *coqgen.File) string {
 // ---------- primitive oracles ----------
 
 // Keccak is the Keccak-256 digest of s read as a big-endian number (computed
-// with x/crypto directly, not through the repository's wrapper).
+// by this package's own implementation, not through the repository's wrapper).
 func Keccak(s string) *big.Int {
-	return new(big.Int).SetBytes(utils.Keccak256([]byte(s)))
+	return new(big.Int).SetBytes(Keccak256([]byte(s)))
 }
 
 // DIDToID is w3c.ParseDID followed by core.IDFromDID; the 31 identifier bytes
@@ -633,6 +648,7 @@ type Opts struct {
 	Subject  string `json:"subject_pos"`
 	Root     string `json:"root_pos"`
 	Upd      bool   `json:"updatable"`
+	Loader   int    `json:"loader,omitempty"` // which document loader the MerklizerOpts carry (drivers with several loaders)
 }
 
 func (o Opts) Coq(f *coqgen.File) string {
